@@ -1056,4 +1056,52 @@ theorem mapM_confName (rs : List Ref) (h : ∀ r ∈ rs, r.resolved = true) :
     obtain ⟨ns, hns⟩ := ih (fun r hr => h r (by simp [hr]))
     exact ⟨n :: ns, by simp [List.mapM_cons, hn, hns]⟩
 
+/-! ### `check_signature` -/
+
+/-- the documented rule: a single input matches only `None`; a group of `k` inputs (0 included)
+    matches the size `k` and every range that contains `k`; nothing matches a malformed expectation -/
+def Expect.accepts : Expect → Option Nat → Prop
+  | .single, v => v = none
+  | .exact n, v => v = some n
+  | .range lo hi, v => ∃ k, v = some k ∧ (∀ l, lo = some l → l ≤ k) ∧ (∀ h, hi = some h → k ≤ h)
+  | .malformed, _ => False
+
+theorem valueDiff_false_iff (e : Expect) (v : Option Nat) : valueDiff e v = false ↔ e.accepts v := by
+  cases e with
+  | single => cases v <;> simp [valueDiff, Expect.accepts]
+  | exact n =>
+    cases v with
+    | none => simp [valueDiff, Expect.accepts]
+    | some k => simp [valueDiff, Expect.accepts]
+  | malformed => cases v <;> simp [valueDiff, Expect.accepts]
+  | range lo hi =>
+    cases v with
+    | none => simp [valueDiff, Expect.accepts]
+    | some k =>
+      cases lo <;> cases hi <;> simp [valueDiff, Expect.accepts] <;> omega
+
+theorem sigEq_sound {bsig : List (String × Option Nat)} {esig : List (String × Expect)}
+    (h : sigEq bsig esig = true) :
+    sameKeys bsig esig = true ∧ ∀ p ∈ esig, ∃ v, bsig.lookup p.1 = some v ∧ p.2.accepts v := by
+  unfold sigEq at h
+  simp only [Bool.and_eq_true, List.all_eq_true] at h
+  obtain ⟨hl, ha⟩ := h
+  have key : ∀ p ∈ esig, ∃ v, bsig.lookup p.1 = some v ∧ p.2.accepts v := by
+    intro p hp
+    have := ha p hp
+    split at this
+    · next h1 h2 => exact ⟨none, h2, by rw [h1]; rfl⟩
+    · next n k h1 h2 =>
+      refine ⟨some k, h2, ?_⟩
+      rw [h1]; simp only [Expect.accepts]
+      have : k = n := by simpa using this
+      rw [this]
+    · cases this
+  refine ⟨?_, key⟩
+  unfold sameKeys
+  simp only [Bool.and_eq_true, List.all_eq_true]
+  refine ⟨hl, fun p hp => ?_⟩
+  obtain ⟨v, hv, _⟩ := key p hp
+  rw [hv]; rfl
+
 end Edzed.Wiring
